@@ -372,12 +372,16 @@ class Ser:
             if prev is not None:
                 # line-based blocks (list / definition-list lines next to paragraph lines) need no blank
                 # line between them: the line prefix alone ends the paragraph
-                tight = (self._line_based(prev) and self._line_based(b) and "para" in (prev[0], b[0])
-                         and prev[0] != b[0] and self.rnd.random() < 0.3)
+                tight = (self._line_based(prev) and self._line_based(b) and self._line_kind(prev) != self._line_kind(b)
+                         and self.rnd.random() < 0.3)
                 out += "\n" if tight else "\n" + self.rnd.choice(("\n", "\n", "\n\n"))
             out += txt
             prev = b
         return out
+
+    @staticmethod
+    def _line_kind(b):
+        return (b[0], b[1]) if b[0] == "list" else b[0]
 
     @staticmethod
     def _line_based(b):
